@@ -217,7 +217,7 @@ def table():
         tri = json.load(open(tp))
     byf = {}
     for m in allm:
-        t = byf.setdefault(m["file"], {"mutants": 0, "nocompile": 0, "killed": 0, "survived": 0, "c": 0, "b": 0, "a": 0, "d": 0, "a-equivalent": 0})
+        t = byf.setdefault(m["file"], {"mutants": 0, "nocompile": 0, "killed": 0, "survived": 0, "c": 0, "b": 0, "a": 0, "d": 0, "a-equivalent": 0, "a-outside": 0})
         t["mutants"] += 1
         t[m["status"]] += 1
         r = res.get(m["id"])
@@ -225,15 +225,17 @@ def table():
             t[r["worst"]] = t.get(r["worst"], 0) + 1
             if r["worst"] == "a" and tri.get(m["id"], {}).get("verdict") == "equivalent":
                 t["a-equivalent"] += 1
-    print("| file | mutants | do not compile | killed by the suite | survive | caught: failing input | caught: broken tie only | silent | of these equivalent (triaged) | crash |\n|---|---|---|---|---|---|---|---|---|---|")
+            if r["worst"] == "a" and tri.get(m["id"], {}).get("verdict") == "out-of-scope":
+                t["a-outside"] += 1
+    print("| file | mutants | do not compile | killed by the suite | survive | caught: failing input | caught: broken tie only | silent | of these: equivalent | of these: outside every property clause | crash |\n|---|---|---|---|---|---|---|---|---|---|---|")
     tot = {}
     for f in sorted(byf):
         t = byf[f]
-        print("| %s | %d | %d | %d | %d | %d | %d | %d | %d | %d |" % (f, t["mutants"], t["nocompile"], t["killed"], t["survived"], t["c"], t["b"], t["a"], t["a-equivalent"], t["d"]))
+        print("| %s | %d | %d | %d | %d | %d | %d | %d | %d | %d | %d |" % (f, t["mutants"], t["nocompile"], t["killed"], t["survived"], t["c"], t["b"], t["a"], t["a-equivalent"], t["a-outside"], t["d"]))
         for k, v in t.items():
             tot[k] = tot.get(k, 0) + v
     if tot:
-        print("| **total** | %d | %d | %d | %d | %d | %d | %d | %d | %d |" % (tot["mutants"], tot["nocompile"], tot["killed"], tot["survived"], tot["c"], tot["b"], tot["a"], tot["a-equivalent"], tot["d"]))
+        print("| **total** | %d | %d | %d | %d | %d | %d | %d | %d | %d | %d |" % (tot["mutants"], tot["nocompile"], tot["killed"], tot["survived"], tot["c"], tot["b"], tot["a"], tot["a-equivalent"], tot["a-outside"], tot["d"]))
     if "--silent" in sys.argv:
         for r in res.values():
             if r["worst"] == "a":
